@@ -4,7 +4,7 @@ use super::common::family_e;
 use crate::ctx::{guard, Ctx};
 use crate::drive;
 use crate::encode::{self, EncOpts};
-use crate::model::{ic_value, Facts, Mode, RefOnt};
+use crate::model::{ic_value, Facts, Kind, Mode, RefOnt};
 use hpo::annotations::AnnotationId;
 use hpo::term::HpoGroup;
 use hpo::{HpoSet, Ontology};
@@ -186,6 +186,65 @@ pub fn run(ctx: &mut Ctx) {
         }
         ctx.outcome(crate::ctx::fnv_str(what) % 65536);
         ctx.sample(|| json!({"family": what, "facts": f.to_json(), "subsets": 1u32 << n}));
+    }
+    // ---- record counts that differ between the kinds in every direction: the unions of one kind must not
+    // depend on how many records another kind has
+    {
+        let counts: Vec<[usize; 3]> = vec![[1, 2, 4], [1, 4, 2], [2, 1, 4], [2, 4, 1], [4, 1, 2], [4, 2, 1], [0, 3, 1], [3, 0, 2], [2, 4, 0], [5, 5, 5]];
+        ctx.space("record-count-asymmetry/all-subsets", &format!("{} ontologies: HP:1, HP:118 and five children of HP:118; (genes, OMIM, ORPHA) record counts {counts:?}, record j of a kind on the j-th child, the first record of every kind additionally on the last child; all 2^7 subsets, Builder and from_bytes", counts.len()));
+        for c in &counts {
+            if !ctx.take() {
+                continue;
+            }
+            ctx.state();
+            ctx.nontrivial();
+            let mut f = Facts::default();
+            f.version = (2024, 2, 29);
+            f.terms = vec![Facts::term(1, "All"), Facts::term(118, "Phenotypic abnormality")];
+            f.edges = vec![(118, 1)];
+            let kids = [2u32, 3, 4, 6, 7];
+            for k in kids {
+                f.terms.push(Facts::term(k, &format!("Child {k}")));
+                f.edges.push((k, 118));
+            }
+            for (ki, kind) in [Kind::Gene, Kind::Omim, Kind::Orpha].into_iter().enumerate() {
+                for j in 0..c[ki] {
+                    f.anns.push(Facts::ann(kind, 100 * (ki as u32 + 1) + j as u32, &format!("{}{j}", kind.name()), Some(kids[j % 5])));
+                }
+                if c[ki] > 0 {
+                    f.anns.push(Facts::ann(kind, 100 * (ki as u32 + 1), &format!("{}0", kind.name()), Some(kids[4])));
+                }
+            }
+            let r = RefOnt::derive(&f);
+            let n = f.terms.len();
+            let ids: Vec<u32> = f.terms.iter().map(|t| t.id).collect();
+            ctx.transitions(2 * f.n_steps());
+            let mut onts: Vec<(Ontology, &str)> = vec![];
+            match drive::from_bytes(&encode::encode(&f, &EncOpts::v(3))) {
+                Ok(Ok(o)) => onts.push((o, "from_bytes")),
+                other => {
+                    ctx.violation("Ontology::from_bytes", "rejects a file laid out as documented", json!({"facts": f.to_json(), "observed": format!("{:?}", other.map(|r| r.map(|_| ())))}));
+                    continue;
+                }
+            }
+            if let Ok(o) = drive::build(&f, Mode::Defaults) {
+                onts.push((o, "builder"));
+            }
+            for (ont, path) in &onts {
+                for mask in 0..(1u32 << n) {
+                    let x: Vec<u32> = crate::space::bits(mask, n).iter().map(|i| ids[*i]).collect();
+                    ctx.exec();
+                    ctx.validated();
+                    ctx.transitions(16);
+                    match guard(|| check_subset(ont, &r, &x)) {
+                        Ok(None) => {}
+                        Ok(Some((site, sig, det))) => ctx.violation(&site, &sig, json!({"record_counts (gene, omim, orpha)": c, "facts": f.to_json(), "constructor": path, "difference": det})),
+                        Err(p) => ctx.violation("HpoSet", "panics", json!({"record_counts": c, "facts": f.to_json(), "set": x, "observed": p})),
+                    }
+                }
+            }
+            ctx.sample(|| json!({"record_counts (gene, omim, orpha)": c, "subsets": 1u32 << n}));
+        }
     }
     // ---- operation sequences on one live HpoSet: queries interleaved with in-place mutations and Extend
     {
